@@ -5,7 +5,7 @@ open GoHeader GoHeader.Sess
 
 def behOf? (s : String) : Option Beh :=
   match s.splitOn ":" with
-  | ["honest"] => some .honest | ["dup"] => some .dup | ["reorder"] => some .reorder | ["gapped"] => some .gapped
+  | ["honest"] => some .honest | ["slow"] => some .honest | ["dup"] => some .dup | ["reorder"] => some .reorder | ["gapped"] => some .gapped
   | ["wrongchain"] => some .wrongchain | ["oversized"] => some .oversized | ["status"] => some .status
   | ["garbage"] => some .garbage | ["notfound"] => some .notfound | ["empty"] => some .empty
   | ["reset"] => some .reset | ["hang"] => some .hang
